@@ -40,3 +40,11 @@ pub assume_specification<T: Clone> [<[T]>::to_vec] (s: &[T]) -> (r: Vec<T>)
 // R-FORMAT target: the text of a formatted message occurs in no property
 #[verifier::external_body]
 pub fn v_format() -> (r: String) { unimplemented!() }
+pub broadcast axiom fn ax_into_iter_seq_arr8(s: [u8; 8]) ensures #[trigger] into_iter_seq(s) == s@;
+// R-OPAQUE target (capacity hint of a with_capacity call; value used nowhere else)
+#[verifier::external_body]
+pub fn opaque_size<T>(w: &T) -> (r: usize) { unimplemented!() }
+pub open spec fn deref_seq<T>(s: Seq<&T>) -> Seq<T> { s.map_values(|x: &T| *x) }
+pub assume_specification<'a, T: Copy + 'a, A: core::alloc::Allocator, I: IntoIterator<Item = &'a T>> [<Vec<T, A> as Extend<&'a T>>::extend] (v: &mut Vec<T, A>, it: I)
+    ensures final(v)@ == old(v)@ + deref_seq(into_iter_seq(it));
+pub broadcast axiom fn ax_into_iter_seq_arr32ref<'a>(s: &'a [u8; 32]) ensures deref_seq(#[trigger] into_iter_seq(s)) == s@;
